@@ -10,6 +10,20 @@ CHECKS = {
          "Every layer's Error() of generated trees (pairwise kind sweep + PRNG trees) is compared with an independent compositional model; annotation-only wrappers are checked for transparency (root cause, Is, As); every exported wrapper constructor is called with nil. Held = no divergence on the executions observed.",
          "Trusts the harness text model and the stdlib/pkg-errors/os/net documented message formulas; says nothing about kinds or strings outside the generated families.", "§4 C10"),
 }
+CHECKS.update({
+ "C01": ("exploration", "differential monitor over recorded encode/marshal/decode hops (shape + per-node text + wire-byte drift)",
+         "Generated trees (pairwise kind sweep + PRNG) are hopped k times through the real EncodeError / gogo-proto Marshal / Unmarshal / DecodeError; after every hop the visible tree and every node's Error() are compared with the origin, and the bytes a process forwards with the bytes it received. Held = no divergence on the executions observed.",
+         "Origin observation is the oracle (tied to the text model by C10). w1 != w0 is tolerated only for trees with barrier/secondary layers (their safe details embed a re-rendered hidden error).", "§4 C01"),
+ "C02": ("exploration", "differential monitor over histories: Is/IsAny before vs after transfer of e, r, or both, through knowing and unknowing (registry-forgetting hook) processes",
+         "For every (e, r) pair of a generated tree and its reference pool (own layers incl. hidden, sentinels, errnos, independent tree, near-equal perturbations) the Is answer before transfer is compared with the answer after 5-7 hop histories mixing knowing and unknowing processes, with r transferred, with both, and at an observer that does not know third-party types.",
+         "Before-transfer answer is the oracle (tied to the documented equivalence by C08). Unknowing process = decoders for chosen keys removed during decode (verif hook). Pairs whose local match is due only to a foreign Is method are exempt when r is transferred, as the statement says.", "§4 C02"),
+ "C04": ("exploration", "differential monitor over histories with unknowing intermediaries: text / type names / safe details at the unknowing process, byte-exact re-encoding, full observation record at the final knowing receiver vs direct hop",
+         "For every generated tree, every subset of its wire type keys (all 2^n for n<=6, sampled otherwise) is forgotten at an intermediary; monitors compare the text shown there with the origin, the bytes forwarded with the bytes received, and the complete observation record (text, shape, Is pool, annotations, %+v, per-layer details and stacks) of a later knowing receiver with that of a direct transfer. The hook-based simulation is cross-checked against hook-free wire renaming.",
+         "Unknowing process = decoders removed during decode (verif hook). Two recorded findings (barrier markers, gRPC status description) are printed as KNOWN-FINDING.", "§4 C04"),
+ "C08": ("exploration", "reference-model monitor: errors.Is/IsAny vs an independent implementation of the documented equivalence over model marks + algebraic monitors",
+         "All (e, r) pairs from a generated tree, its layers, sentinels and systematically perturbed copies (message / type / domain / extra / missing layer, strict prefix and extension chains, leaf-or-wrapper types, non-comparable values, Mark with references of other chain lengths) are evaluated and compared with a reference implementation whose marks come from the model's hard-coded family table; reflexivity, monotonicity under 11 wrappers, IsAny = disjunction on random sub-pools and nil handling are asserted.",
+         "Marks come from the model table, not from the library; foreign Is methods are called on live objects.", "§4 C08"),
+})
 NOT_YET = {}
 
 def main():
